@@ -579,6 +579,17 @@ func (in *instrumenter) traceNode(n ast.Node) {
 			y.Max = in.wrapIndex(y.Max, "slice-max")
 		case *ast.CallExpr:
 			if sel, ok := y.Fun.(*ast.SelectorExpr); ok {
+				// math/big arithmetic is variable time in the magnitude of its operands: log the bit
+				// lengths of the receiver and of every *big.Int argument
+				if tv, ok := in.info.Types[sel.X]; ok && isBigInt(tv.Type) {
+					in.changed = true
+					sel.X = in.rtCall("BI", intLit(in.site(y.Pos(), "vartime math/big."+sel.Sel.Name)), sel.X)
+					for i, a := range y.Args {
+						if at, ok := in.info.Types[a]; ok && isBigIntPtr(at.Type) {
+							y.Args[i] = in.rtCall("BI", intLit(in.site(a.Pos(), "vartime math/big operand")), a)
+						}
+					}
+				}
 				if id, ok := sel.X.(*ast.Ident); ok {
 					if pn, ok := in.info.Uses[id].(*types.PkgName); ok {
 						key := pn.Imported().Path() + "." + sel.Sel.Name
@@ -689,3 +700,14 @@ func syncUses(fset *token.FileSet, files []*ast.File) []string {
 	}
 	return out
 }
+
+func isBigIntPtr(t types.Type) bool {
+	p, ok := t.(*types.Pointer)
+	if !ok {
+		return false
+	}
+	n, ok := p.Elem().(*types.Named)
+	return ok && n.Obj().Pkg() != nil && n.Obj().Pkg().Path() == "math/big" && n.Obj().Name() == "Int"
+}
+
+func isBigInt(t types.Type) bool { return isBigIntPtr(t) }
